@@ -39,20 +39,43 @@ func (fr *Frame) loopModSet(li *loopInfo) map[string]bool {
 		vc.modSetBlock(fr.fn, b, set, map[*ssa.Function]bool{})
 	}
 	// ghost variables may be assigned by site clauses inside the loop
-	if fr.top.contract != nil {
-		for _, gv := range fr.top.contract.GhostVars {
-			set["GV_"+funcKey(fr.top.fn)+"."+gv.Name] = true
+	for _, own := range []*Frame{fr, fr.top} {
+		oc := own.contract
+		if oc == nil {
+			oc = own.ownContract()
+		}
+		if oc != nil {
+			for _, gv := range oc.GhostVars {
+				set["GV_"+funcKey(own.fn)+"."+gv.Name] = true
+			}
 		}
 	}
 	return set
 }
 
-// invariants of loop (by ordinal) from the contract under verification
-func (fr *Frame) invariants(h *ssa.BasicBlock) []Clause {
-	if fr.contract == nil {
+// ownContract: the contract of an inlined closure (nil for ordinary inlined functions,
+// whose contracts are applied at the call instead).
+func (fr *Frame) ownContract() *Contract {
+	if fr.parent == nil || fr.fn.Parent() == nil {
 		return nil
 	}
-	return fr.contract.LoopInv[fr.loopOrd[h]]
+	ct := fr.vc.S.Contracts[funcKey(fr.fn)]
+	if ct == nil || ct.NoBody {
+		return nil
+	}
+	return ct
+}
+
+// invariants of loop (by ordinal) from the contract under verification (or of
+// the inlined closure's own contract)
+func (fr *Frame) invariants(h *ssa.BasicBlock) []Clause {
+	if fr.contract != nil {
+		return fr.contract.LoopInv[fr.loopOrd[h]]
+	}
+	if own := fr.ownContract(); own != nil {
+		return own.LoopInv[fr.loopOrd[h]]
+	}
+	return nil
 }
 
 // checkInvariant: obligations for the invariant of loop header h along edge from->h.
@@ -178,7 +201,11 @@ func (fr *Frame) siteContract() *Contract {
 	if fr.contract != nil {
 		return fr.contract
 	}
-	if fr.top.contract != nil && fr.vc.S.Contracts[funcKey(fr.fn)] == nil {
+	if own := fr.ownContract(); own != nil {
+		// a closure with a contract of its own, executed inline: its ghost code runs with it
+		return own
+	}
+	if fr.top.contract != nil {
 		for p := fr.fn.Parent(); p != nil; p = p.Parent() {
 			if p == fr.top.fn {
 				return fr.top.contract
@@ -269,10 +296,17 @@ func (fr *Frame) ghostAssign(lhs *SExpr, rhs Val, env *Env) {
 	src := strings.TrimSpace(lhs.Src)
 	i := strings.LastIndex(src, ".")
 	if i < 0 {
-		if fr.top.contract != nil {
-			for _, gv := range fr.top.contract.GhostVars {
+		for _, own := range []*Frame{fr, fr.top} {
+			oc := own.contract
+			if oc == nil {
+				oc = own.ownContract()
+			}
+			if oc == nil {
+				continue
+			}
+			for _, gv := range oc.GhostVars {
 				if gv.Name == src {
-					fam := "GV_" + funcKey(fr.top.fn) + "." + src
+					fam := "GV_" + funcKey(own.fn) + "." + src
 					vc.family(fam, specSort(gv.GType))
 					fr.cur.heap = vc.heapSet(fr.cur.heap, fam, rhs.T())
 					if specSort(gv.GType) == "Int" {
@@ -300,6 +334,16 @@ func (fr *Frame) ghostAssign(lhs *SExpr, rhs Val, env *Env) {
 		T = pt.Elem()
 	}
 	gf, ok := vc.S.Ghosts[vc.typeName(T)+"."+src[i+1:]]
+	if _, isI := T.Underlying().(*types.Interface); isI && !ok {
+		if g2, ok2 := vc.S.Ghosts["iface."+src[i+1:]]; ok2 && len(obj.L) == 2 {
+			fam := "H_iface." + g2.Name
+			srt := specSort(g2.GType)
+			vc.family(fam, "(Array Int "+srt+")")
+			cur := vc.lookup(fr.cur.heap, fam)
+			fr.cur.heap = vc.heapSet(fr.cur.heap, fam, vc.define(fam, vc.famSort[fam], "(store "+cur+" "+obj.L[1]+" "+rhs.T()+")"))
+			return
+		}
+	}
 	if !ok {
 		vc.errorf("ghost update: %s is not a declared ghost field", src)
 		return
